@@ -4,6 +4,7 @@ from fractions import Fraction
 import numpy as np
 import vlib
 from vlib import zl, ql, zlit, qlit
+import c12_hist
 
 HEADER = '''From Coq Require Import ZArith QArith List Bool.
 From Bignums Require Import BigQ.
@@ -26,7 +27,7 @@ Definition strainM (d : nat) (h : list Q) (v : bool) := strain_opmat R3 d (injl 
 Definition stressM (d : nat) (h : list Q) (E nu : Q) (mode : Z) := stress_opmat R3 d (injl h) (inj E) (inj nu) mode.
 Definition thermoM (d : nat) (h : list Q) (E nu al : Q) (mode : Z) := thermo_opmat R3 d (injl h) (inj E) (inj nu) (inj al) mode.
 Definition avgM (d : nat) (h : list Q) : @opmat bigQ := average_opmat d (bql h).
-'''
+''' + c12_hist.HEADER_EXTRA
 
 ERR = {None: 0, 'TypeError': 1, 'ValueError': 2, 'IndexError': 3, 'AssertionError': 4, 'RuntimeError': 5}
 MODES = {'strain': 0, 'stress': 1, 'Plane-Strain': 0, 'plane stress': 1}
@@ -35,6 +36,7 @@ KNOWN = ('Strain._prepare', 'strain_affine.shear_component', 'gradient with non-
 INTU = ('ElementOperation._sensitivity', 'sensitivity is the transpose of the operator (NodalOperation response for the same element matrix)',
         'integer-typed nodal vector')
 SENS_PRED = INTU[1]
+SHEAR_ORDER = 'strain_affine.shear components in Voigt order (up to the known factor 2)'
 # how a constructor argument is handed over: Python / numpy scalar kinds of the element sizes
 KINDS = {'float': float, 'int': int, 'np.float64': np.float64, 'np.int64': np.int64, 'np.int32': np.int32}
 INT_KINDS = ('int', 'np.int64', 'np.int32')
@@ -161,9 +163,11 @@ def run(ctx):
                     'Bignums (BigQ on 63-bit machine integers) is used to EVALUATE the models in the correspondence check only',
                     'np.count_nonzero on the float B matrix is modelled by the exact zero test of the exact B matrix']
     vlib.audit(ctx)
-    if not vlib.ensure_static(ctx, ['theories/Props/C12.vo', 'theories/Base/SpCanon.vo', 'theories/Base/Cmp.vo', 'theories/Model/ElemOps.vo']):
+    if not vlib.ensure_static(ctx, ['theories/Props/C12.vo', 'theories/Props/C12h.vo', 'theories/Base/SpCanon.vo', 'theories/Base/Cmp.vo',
+                                    'theories/Model/ElemOps.vo', 'theories/Model/ElemHist.vo']):
         return
     vlib.check_props(ctx)
+    vlib.check_props(ctx, 'theories/Props/C12h.v')      # histories on one module instance: no memory beyond the documented cache
 
     checks, labels, replay = [], [], []
 
@@ -506,6 +510,23 @@ def run(ctx):
             hs, kinds = SZ[k_ % len(SZ)], KS[k_ % len(KS)] if k_ % 7 != 6 else ['int'] * 3
             k_ += 1
             der.append(gen_derived(rs_, kind, dim, grid, hs, kinds, True, tag='int-sizes', mat=(2.5, 0.25) if k_ % 2 else (2, 0), **opt))
+    # deterministic Voigt-order cases (the same on every seed): affine fields whose normal components are pairwise different and whose
+    # shear components are pairwise different in magnitude (3-D: gamma_yz = 7, gamma_zx = 2, gamma_xy = 3; none is twice another), on
+    # non-cubic elements; Strain with voigt True / False and Stress: a permutation of the shear rows (get_B's own `voigt` flag selects the
+    # order [xy, yz, zx]) cannot coincide with the documented order or with the known factor 2
+    G3 = [[2, 1, 4], [2, -3, 5], [-2, 2, 5]]
+    G2 = [[2, 1], [3, -3]]
+    for dim, grid, hs, kind, opt in ((3, [2, 1, 2], [0.5, 2.0, 1.0], 'strain', dict(voigt=False)),
+                                     (3, [1, 2, 1], [1.0, 0.5, 2.0], 'strain', dict(voigt=True)),
+                                     (3, [1, 2, 1], [2.0, 1.0, 0.5], 'stress', dict(plane='strain')),
+                                     (2, [2, 2, 0], [0.5, 2.0, 1.0], 'strain', dict(voigt=False)),
+                                     (2, [3, 1, 0], [2.0, 0.5, 1.0], 'strain', dict(voigt=True)),
+                                     (2, [2, 2, 0], [1.0, 0.5, 2.0], 'stress', dict(plane='plane stress')),
+                                     (2, [1, 2, 0], [0.5, 1.0, 1.0], 'stress', dict(plane='strain'))):
+        c = gen_derived(rs_, kind, dim, grid, hs, None, True, tag='voigt-order', mat=(2.5, 0.25), **opt)
+        c.update(G=[list(r) for r in (G3 if dim == 3 else G2)], c0=[1, -2, 3][:dim])
+        c.pop('u_dtype', None)
+        der.append(c)
     nder = 44 if quick else 400
     for t in range(nder):
         kind = rng.choice(('strain', 'strain', 'stress', 'stress', 'average', 'thermo'))
@@ -526,6 +547,10 @@ def run(ctx):
         except Exception as e:  # noqa -- every derived case is well-formed: an exception is a concrete failing input
             ctx.violation('impl-violates', dsites[c['what']], 'well-formed domain, material constants and field are accepted', c['what'],
                           {k: v for k, v in c.items()}, expected='no exception', got=f'{type(e).__name__}: {str(e)[:300]}')
+
+    # ---------------------------------------------------------------- (d) histories: instances used repeatedly, several instances on one domain
+    import sys
+    c12_hist.run_histories(ctx, pym, add, sys.modules[__name__])
 
     # balance the shards: 3-D cases in Q(sqrt 3) are the heavy ones
     def cost(e):
@@ -719,7 +744,14 @@ def oracle_one(ctx, pym, oc, rs, bad):
                 if np.abs(y[:dim] - exp[:dim, None]).max() > 1e-9 * sc:
                     bad('Strain._prepare', 'strain_affine.normal_component', icls, exp[:dim].tolist(), y[:dim, 0].tolist())
                 if np.abs(y[dim:] - exp[dim:, None]).max() > 1e-9 * sc:
-                    bad('Strain._prepare', 'strain_affine.shear_component', icls, exp[dim:].tolist(), y[dim:, 0].tolist())
+                    # K05 is a FACTOR: every shear component is twice the documented one, in the documented (Voigt) order.  Anything
+                    # else (components permuted, a sign, one component off) is not that finding.
+                    if np.abs(y[dim:] - 2 * exp[dim:, None]).max() <= 1e-9 * sc:
+                        bad(*KNOWN, exp[dim:].tolist(), y[dim:, 0].tolist())
+                    else:
+                        bad('Strain._prepare', SHEAR_ORDER, f'dim{dim} voigt={voigt}',
+                            dict(documented=exp[dim:].tolist(), with_known_factor_2=(2 * exp[dim:]).tolist(), order='yz zx xy' if dim == 3 else 'xy'),
+                            y[dim:, 0].tolist())
             else:
                 kw = c['kw']
                 D = get_D_ref(kw['E'], kw['nu'], MODES[kw['plane']], dim) * (hs[2] if dim == 2 else 1.0)
@@ -731,8 +763,15 @@ def oracle_one(ctx, pym, oc, rs, bad):
                 if np.abs(y[:dim] - sig[:dim, None]).max() > 1e-9 * ssc:
                     bad('Stress._prepare', 'stress_affine.normal_component', icls, sig[:dim].tolist(), y[:dim, 0].tolist())
                 if np.abs(y[dim:] - sig[dim:, None]).max() > 1e-9 * ssc:
-                    # the shear stress is D times the doubled shear strain of Strain._prepare: same finding
-                    bad('Strain._prepare', 'strain_affine.shear_component', icls, sig[dim:].tolist(), y[dim:, 0].tolist())
+                    # the shear stress is D times the doubled shear strain of Strain._prepare: same finding -- if it is exactly that factor
+                    eps_k = eps.copy()
+                    eps_k[dim:] *= 2
+                    sig_k = D @ eps_k
+                    if np.abs(y[dim:] - sig_k[dim:, None]).max() <= 1e-9 * ssc:
+                        bad(*KNOWN, sig[dim:].tolist(), y[dim:, 0].tolist())
+                    else:
+                        bad('Stress._prepare', 'stress_affine.shear components in Voigt order (up to the known factor 2)', f'dim{dim}',
+                            dict(documented=sig[dim:].tolist(), with_known_factor_2=sig_k[dim:].tolist()), y[dim:, 0].tolist())
                 # stress is the constitutive matrix times the module's own strain
                 ms = pym.Strain(pym.Signal('u', oc['u']), domain=d)
                 ms.response()
@@ -747,8 +786,14 @@ def oracle_one(ctx, pym, oc, rs, bad):
                 Ve = float(np.prod(hs[:dim]))
                 en_mod = float(np.sum(x * Ve * np.sum(y * ms.sig_out[0].state, axis=0)))
                 if abs(en_mod - uKu) > 1e-9 * max(1.0, abs(uKu)):
-                    # the energy identity inherits the doubled shear (4x shear energy) -- only with non-zero shear
-                    bad('Strain._prepare', 'strain_affine.shear_component' if shear_nz else 'energy identity', icls, uKu, en_mod)
+                    # the energy identity inherits the doubled shear: exactly 3 more shear energies (C12_energy_2d/_3d) -- only with non-zero shear
+                    gam = np.zeros_like(eps)
+                    gam[dim:] = eps[dim:]
+                    en_k05 = uKu + 3 * Ve * float(gam @ (D @ gam)) * float(np.sum(x))
+                    if shear_nz and abs(en_mod - en_k05) <= 1e-9 * max(1.0, abs(en_k05), abs(uKu)):
+                        bad(*KNOWN, uKu, en_mod)
+                    else:
+                        bad('Strain._prepare', 'energy identity', icls, dict(uKu=uKu, with_known_shear_factor=en_k05), en_mod)
         elif kind == 'average':
             nd = c['kw']['ndof']
             Gm = np.asarray(c['G'], dtype=float)
